@@ -329,3 +329,36 @@ pub open spec fn items_pfx(d: Seq<u8>, p: int, k: nat, fuel: nat) -> bool
 /// the nesting budget of the public entry points (the repo's private constant, visible to contracts)
 pub closed spec fn max_fuel() -> nat { MAX_DEPTH as nat }
 proof fn lemma_max_fuel() ensures max_fuel() == MAX_DEPTH as nat { }
+
+/// an accepted frame is non-empty and lies inside the buffer
+pub proof fn lemma_frame_len_bounds(d: Seq<u8>, s: int, fuel: nat)
+    ensures frame_len(d, s, fuel) matches Some(n) ==> n >= 1 && s + n <= d.len() && s >= 0
+    decreases fuel, 0nat, 0nat
+{
+    if s < 0 || s >= d.len() { }
+    else if d[s] == 43 || d[s] == 45 || d[s] == 58 { lemma_line_end_some(d, s + 1); }
+    else if d[s] == 36 {
+        if s + 1 < d.len() && d[s + 1] == 45 { } else { lemma_line_end_some(d, s + 1); }
+    } else if d[s] == 42 {
+        if fuel > 0 {
+            lemma_line_end_some(d, s + 1);
+            match int_line(d, s + 1) {
+                Some((v, m)) => { if v >= 0 { lemma_items_len_bounds(d, s + 1 + m, v as nat, (fuel - 1) as nat); } },
+                None => {},
+            }
+        }
+    }
+}
+pub proof fn lemma_items_len_bounds(d: Seq<u8>, p: int, k: nat, fuel: nat)
+    requires 0 <= p <= d.len()
+    ensures items_len(d, p, k, fuel) matches Some(t) ==> t >= 0 && p + t <= d.len()
+    decreases fuel, 1nat, k
+{
+    if k > 0 {
+        lemma_frame_len_bounds(d, p, fuel);
+        match frame_len(d, p, fuel) {
+            Some(a) => { lemma_items_len_bounds(d, p + a, (k - 1) as nat, fuel); },
+            None => {},
+        }
+    }
+}
